@@ -31,6 +31,7 @@ func getProfile(name string, seed int64) *Profile {
 		p.W = weights(map[string]int{"Derived": 30, "FindAll": 4, "Count": 6, "Exists": 4, "FindFirst": 4, "ForEach": 6, "FindById": 4, "DeleteById": 8})
 		p.ReadAudit = 0.5
 	case "audit": // C06
+		p.AltIds = true
 		p.Ops = 45
 		p.W = weights(map[string]int{"DeleteById": 8, "DropCollection": 3, "CreateCollection": 4, "CreateIndex": 8, "DropIndex": 5, "FindAll": 4, "Derived": 3})
 		p.Invalid = 0.2
@@ -62,6 +63,7 @@ func getProfile(name string, seed int64) *Profile {
 		p.Colls = 1
 		p.Name = "tzwitness"
 	case "ids": // C12
+		p.AltIds = true
 		p.Colls = 3
 		p.MaxDocs = 6
 		p.Invalid = 0.45
@@ -72,12 +74,14 @@ func getProfile(name string, seed int64) *Profile {
 		p.Invalid = 0.5
 		p.W = weights(map[string]int{"CreateCollection": 12, "DropCollection": 8, "HasCollection": 6, "ListCollections": 6, "Insert": 12})
 	case "indexcat": // C14
+		p.AltIds = true
 		p.Colls = 2
 		p.Invalid = 0.3
 		p.W = weights(map[string]int{"CreateIndex": 14, "DropIndex": 10, "HasIndex": 6, "ListIndexes": 6, "FindAll": 14, "Derived": 4})
 		p.SortHeavy = true
 		p.IdxPool = []string{"x", "xy", "n", "n.a", "x", "xy", "s", "x.y"}
 	case "twins": // C02: collections differing only in their indexes
+		p.AltIds = true
 		p.Twins = 4
 		p.Colls = 4
 		p.MaxDocs = 12
